@@ -1,6 +1,8 @@
 import PhyVerif.Driver.Json
 import PhyVerif.Model.C18
+import PhyVerif.Model.C18c
 import PhyVerif.Spec.C18
+import PhyVerif.Spec.C18c
 namespace PhyVerif.Driver
 open Lean PhyVerif.C18
 
@@ -82,8 +84,98 @@ def renderCell : Cell → String
   | .float f => s!"F{f}"
   | .text s => "T" ++ s
 
+def jNum : Num → Json
+  | .int i => Json.mkObj [("int", jInt i)]
+  | .float neg m e => Json.mkObj [("float", Json.arr #[Json.bool neg, jNat m, jInt e])]
+  | .inf neg => Json.mkObj [("inf", Json.bool neg)]
+  | .nan => Json.mkObj [("nan", Json.bool true)]
+  | .text s => Json.mkObj [("text", Json.str s)]
+
+/-- a cell handed to `write_tsv`: {"int": i} | {"float": [neg, m, e]} (the double ±m·2^e) | {"text": s} -/
+def asWCell (j : Json) : R WCell := do
+  if hasFld j "int" then return .int (← getInt j "int")
+  if hasFld j "float" then
+    let a ← fld j "float" >>= asArr
+    match a with
+    | [n, m, e] => return .float ⟨← asBool n, ← asNat m, ← asInt e⟩
+    | _ => .error "float cell"
+  return .text (← getStr j "text")
+
+/-- a value of a two-column table: {"int": i} | {"lit": repr(x)} | {"text": s} -/
+def asSVal (j : Json) : R SVal := do
+  if hasFld j "int" then return .int (← getInt j "int")
+  if hasFld j "lit" then return .float (← getStr j "lit")
+  return .text (← getStr j "text")
+
+def jRowsNum (rows : List (List (String × Num))) : Json :=
+  jList (jList fun (fc : String × Num) => Json.arr #[Json.str fc.1, jNum fc.2]) rows
+
+def jSimple (r : Option (String × List (Int × Num))) : Json :=
+  match r with
+  | none => Json.null
+  | some (f, d) => Json.mkObj [("field", Json.str f),
+      ("data", jList (fun (p : Int × Num) => Json.arr #[jInt p.1, jNum p.2]) d)]
+
+def optText (j : Json) (k : String) : R (Option String) :=
+  match j.getObjVal? k with
+  | .ok v => asOpt asStr v
+  | .error _ => pure none
+
 def runC18 (op : String) (j : Json) : R Json := do
   match op with
+  | "number" =>
+    -- `_try_make_number` on each string
+    let ss ← fld j "strings" >>= asList asStr
+    pure (Json.mkObj [("values", jList jNum (ss.map tryMakeNumber))])
+  | "csv" =>
+    -- the csv transport alone: records -> text -> records; the real writer's text through the model reader
+    let rows ← fld j "rows" >>= asList (asList asStr)
+    let d := delimOf (← getBool j "tsv")
+    let text := csvWrite d (rows.map fun r => r.map String.toList)
+    let real ← optText j "impl_text"
+    pure (Json.mkObj [("text", Json.str (String.ofList text)),
+                      ("back", jList (jList Json.str) ((csvRead d text).map fun r => r.map String.ofList)),
+                      ("real_parsed", jOpt (fun (t : String) => jList (jList Json.str)
+                          ((csvRead d t.toList).map fun r => r.map String.ofList)) real)])
+  | "table" =>
+    -- `write_tsv` then `read_tsv` on file texts (4 = the n_significant_figures `write_tsv` passes)
+    let rowsJ ← fld j "rows" >>= asArr
+    let rows ← rowsJ.mapM fun r => do
+      let cells ← asArr r
+      cells.mapM fun c => do
+        let p ← asArr c
+        match p with
+        | [f, v] => do pure (← asStr f, ← asWCell v)
+        | _ => .error "cell"
+    let first ← optText j "first"
+    let isTsv ← getBool j "tsv"
+    let real ← optText j "impl_text"
+    match writeTsv (renderW 4) rows first, writeTsvFile isTsv (renderW 4) rows first with
+    | some file, some text =>
+      pure (Json.mkObj [("header", jList Json.str file.1),
+                        ("text", Json.str (String.ofList text)),
+                        ("back", jOpt jRowsNum (readTsvFile tryMakeNumber text)),
+                        ("expected", jRowsNum (expectedRows file.1 (rows.map fun r => r.map fun fc => (fc.1, obsW 4 fc.2)))),
+                        ("real_parsed", jOpt (fun (t : String) => jOpt jRowsNum (readTsvFile tryMakeNumber t.toList)) real),
+                        ("real_header", jOpt (fun (t : String) =>
+                            let lines := fileLines t.toList
+                            jList Json.str (((lines.map (csvParseLine (sniff lines))).headD []).map String.ofList)) real)])
+    | _, _ => pure (Json.mkObj [("header", Json.null)])
+  | "simple" =>
+    let dataJ ← fld j "data" >>= asArr
+    let data ← dataJ.mapM fun e => do
+      let p ← asArr e
+      match p with
+      | [i, v] => do pure (← asInt i, ← asSVal v)
+      | _ => .error "entry"
+    let field ← getStr j "field"
+    let isTsv ← getBool j "tsv"
+    let real ← optText j "impl_text"
+    let text := writeTsvSimple isTsv field data
+    pure (Json.mkObj [("text", Json.str (String.ofList text)),
+                      ("back", jSimple (readTsvSimple text)),
+                      ("expected", jSimple (some (field, (sortById data).map fun p => (p.1, obsS p.2)))),
+                      ("real_parsed", jOpt (fun (t : String) => jSimple (readTsvSimple t.toList)) real)])
   | "json" =>
     let entries ← fld j "dict" >>= asArr
     let d ← entries.mapM fun e => do
